@@ -148,24 +148,29 @@ impl Cmp<'_> {
                 }
             }
         }
-        // A gross mismatch that a very small stencil does not confirm is an unresolved local
-        // feature of the model function (e.g. a state within 1e-4 relative of a pole of the Pade
-        // form of the polar terms): the dual-number value is the derivative AT the point, the
-        // Ridders stencils straddle the feature. Only gross disagreements (> 50 %) are eligible
-        // and the small-stencil value has to reproduce the analytic value within 1 %.
-        if verdict == DVerdict::Mismatch {
-            let gross = mism.iter().all(|(d, _)| (a - d).abs() > 0.5 * a.abs().max(d.abs()));
-            if gross && a.is_finite() {
-                for h_rel in [1e-6, 1e-7, 1e-8] {
-                    let h = h_rel * x0.abs();
-                    if let (Some(fp), Some(fm)) = (f(x0 + h), f(x0 - h)) {
-                        let d = (fp - fm) / (2.0 * h);
-                        if (d - a).abs() <= 1e-2 * a.abs() {
-                            self.obs.inconclusive(format!("{label} (local feature below the stencil size: a stencil of {h_rel:e} reproduces the analytic value)"));
-                            return;
-                        }
+        // A mismatch that much smaller stencils do not confirm is an unresolved local feature of the
+        // model function (a state close to a pole of the Pade form phi2^2/(phi2-phi3) of the polar
+        // terms at low temperature: the dual-number value is the derivative AT the point, the
+        // Ridders stencils of 0.5-6 % straddle the feature). Rule: if at least two of the central
+        // differences with relative steps 1e-4..1e-7 come ten times closer to the analytic value
+        // than every Ridders estimate did, the discrepancy belongs to the stencils. A wrong
+        // analytic value is not rescued by this: small stencils converge to the true derivative,
+        // so their distance to the analytic value stays what the Ridders estimates showed.
+        if verdict == DVerdict::Mismatch && a.is_finite() && !mism.is_empty() {
+            let delta = mism.iter().map(|(d, _)| (a - d).abs()).fold(f64::MAX, f64::min);
+            let mut closer = 0;
+            for h_rel in [1e-4, 1e-5, 1e-6, 1e-7] {
+                let h = h_rel * x0.abs();
+                if let (Some(fp), Some(fm)) = (f(x0 + h), f(x0 - h)) {
+                    let d = (fp - fm) / (2.0 * h);
+                    if (d - a).abs() <= 0.1 * delta {
+                        closer += 1;
                     }
                 }
+            }
+            if closer >= 2 {
+                self.obs.inconclusive(format!("{label} (local feature below the stencil size: small stencils reproduce the analytic value)"));
+                return;
             }
         }
         match verdict {
